@@ -25,36 +25,40 @@ Outcomes == {"normal", "Exception", "BaseException", "GeneratorExit", "StopAsync
 CloseBehs == {"none", "truthy", "raise"}     \* what thing.aclose() answers
 
 VARIABLES kind, o, cb, uses,
+          ccancel,  \* a cancellation is thrown in while thing.aclose() is suspended (last use; closing only)
           phase,    \* "enter" | "block" | "exit" | "classify" | "done"
           use,      \* index of the current use
           bound,    \* what `as` bound in each use: "thing" | "value"
           ncls,     \* calls of thing.aclose() so far
           results   \* what left each `async with`
-vars == <<kind, o, cb, uses, phase, use, bound, ncls, results>>
+vars == <<kind, o, cb, uses, ccancel, phase, use, bound, ncls, results>>
 
 Init == /\ kind \in Kinds /\ o \in Outcomes /\ cb \in CloseBehs /\ uses \in 1..2
         /\ (kind = "nullcontext" => cb = "none")
+        /\ ccancel \in BOOLEAN /\ (kind = "nullcontext" => ~ccancel)
         /\ phase = "enter" /\ use = 1 /\ bound = <<>> /\ ncls = 0 /\ results = <<>>
 
 Enter == /\ phase = "enter" /\ phase' = "block"
          /\ bound' = Append(bound, IF kind = "closing" THEN "thing" ELSE "value")
-         /\ UNCHANGED <<kind, o, cb, uses, use, ncls, results>>
+         /\ UNCHANGED <<kind, o, cb, uses, ccancel, use, ncls, results>>
 
 Block == /\ phase = "block" /\ phase' = "exit"
-         /\ UNCHANGED <<kind, o, cb, uses, use, bound, ncls, results>>
+         /\ UNCHANGED <<kind, o, cb, uses, ccancel, use, bound, ncls, results>>
 
 \* __aexit__: closing awaits aclose() -- once per use, with or without an exception
 Exit == /\ phase = "exit" /\ phase' = "classify"
         /\ ncls' = IF kind = "closing" THEN ncls + 1 ELSE ncls
-        /\ UNCHANGED <<kind, o, cb, uses, use, bound, results>>
+        /\ UNCHANGED <<kind, o, cb, uses, ccancel, use, bound, results>>
 
 Classify ==
   /\ phase = "classify"
   /\ results' = Append(results,
-        IF kind = "closing" /\ cb = "raise" THEN "new:CloseError"
+        \* the cancellation reaches the awaitable inside aclose() and comes out unchanged -- at once
+        IF ccancel /\ use = uses THEN "cancel"
+        ELSE IF kind = "closing" /\ cb = "raise" THEN "new:CloseError"
         ELSE IF o = "normal" THEN "ok" ELSE "same")
   /\ IF use < uses THEN phase' = "enter" /\ use' = use + 1 ELSE phase' = "done" /\ use' = use
-  /\ UNCHANGED <<kind, o, cb, uses, bound, ncls>>
+  /\ UNCHANGED <<kind, o, cb, uses, ccancel, bound, ncls>>
 
 Next == Enter \/ Block \/ Exit \/ Classify
 Spec == Init /\ [][Next]_vars
@@ -62,8 +66,9 @@ Spec == Init /\ [][Next]_vars
 ---------------------------------------------------------------------------
 ClosedOncePerUse == phase = "done" => ncls = (IF kind = "closing" THEN uses ELSE 0)
 NeverSuppresses == \A i \in 1..Len(results) : o # "normal" => results[i] # "ok"
+CancelComesOut == (phase = "done" /\ ccancel) => results[Len(results)] = "cancel"
 
 Emit == (phase = "done" /\ OutFile # "") =>
-   CSVWrite("%1$s", <<ToJson([kind |-> kind, o |-> o, cb |-> cb, uses |-> uses, bound |-> bound,
+   CSVWrite("%1$s", <<ToJson([kind |-> kind, o |-> o, cb |-> cb, uses |-> uses, ccancel |-> ccancel, bound |-> bound,
                               ncls |-> ncls, results |-> results])>>, OutFile)
 =============================================================================
